@@ -1395,7 +1395,8 @@
         (if (null? ls) x (lp (gcd2 x (car ls)) (cdr ls))))))
 
 (define (lcm2 a b)
-  (abs (quotient (* a b) (gcd a b))))
+  (let ((g (gcd a b)))                  ; 0 only when a = b = 0
+    (if (= g 0) g (abs (quotient (* a b) g)))))
 
 (define (lcm . args)
   (if (null? args)
